@@ -93,6 +93,56 @@ class FakeGen(numpy.random.Generator):
         return float(z) if shape == () else z
 
 
+class ReentrantGen(FakeGen):
+    """a FakeGen that, inside its k-th sampling call, has ANOTHER screen of the same size built by the library (other r0, other seed) before
+    it returns its own numbers: the schedule of two threads making layers of one size at once, made deterministic"""
+
+    def __init__(self, g, k, hook):
+        super().__init__(g)
+        self._k, self._hook, self._n = k, hook, 0
+
+    def _take(self, shape):
+        self._n += 1
+        if self._n == self._k:
+            hook, self._hook = self._hook, None
+            if hook is not None:
+                hook()
+        return super()._take(shape)
+
+
+def overlapping_construction(chk, ps, quick):
+    """SCHEDULES (round 6): a screen whose construction overlaps that of another screen of the same size is the screen its own draws give —
+    i.e. what the same call returns when nothing else runs.  (Seeded change C07-K kept the N x N coefficient array in a module-level work
+    array per N, filled in three steps: sequential use is bit-identical, two overlapping constructions mix their coefficients.)"""
+    rng = chk.rng
+    for it in range(6 if quick else 40):
+        N = rng.choice([4, 6, 8, 16, 32])
+        c = config(rng, N)
+        sh = it % 2 == 1
+        fn = ps.ft_sh_phase_screen if sh else ps.ft_phase_screen
+        name = "ft_sh_phase_screen" if sh else "ft_phase_screen"
+        nd = 2 * N * N + (54 if sh else 0)
+        g = numpy.random.default_rng(rng.getrandbits(32)).standard_normal(nd + 64)
+        other = dict(config(rng, N), delta=c["delta"])
+        k = rng.choice([1, 2, 2, 3])
+        chk.oracle_cases += 1
+        chk.count("oracle:overlapping-construction")
+        chk.case(("overlap", name, N, c["r0"], c["delta"], c["L0"], c["l0"], k))
+        rep = dict(c, function=name, other=other, inside_sampling_call=k, clause="overlapping-construction")
+        alone = numpy.asarray(fn(*_args(c), seed=FakeGen(g)), dtype=float)
+        inner = []
+        gen = ReentrantGen(g, k, lambda: inner.append(numpy.asarray(rng.choice([ps.ft_phase_screen, ps.ft_sh_phase_screen])(*_args(other), seed=12345), dtype=float)))
+        got = numpy.asarray(fn(*_args(c), seed=gen), dtype=float)
+        if not inner:
+            continue                                  # fewer sampling calls than k: nothing overlapped
+        scale = float(numpy.max(numpy.abs(alone))) or 1.0
+        if got.shape != alone.shape or not numpy.all(numpy.abs(got - alone) <= 1e-12 * scale):
+            chk.fail("overlap:%s" % name, "%s(r0=%r, N=%d, delta=%r, L0=%r, l0=%r) while another screen of the same size (r0=%r, L0=%r) is built "
+                     "inside its sampling call number %d: differs from the same call made alone by %.3g of its largest value"
+                     % (name, c["r0"], N, c["delta"], c["L0"], c["l0"], other["r0"], other["L0"], k,
+                        float(numpy.max(numpy.abs(got - alone))) / scale if got.shape == alone.shape else float("nan")), rep)
+
+
 class seeded_stream:
     """While active, numpy.random.default_rng(<anything that is not a Generator>) returns a FRESH FakeGen positioned at the
     start of the prescribed stream — which is what seeding with an int means (every generator built from the same seed
@@ -1317,6 +1367,7 @@ def run(chk):
     near_equal_history(chk, ps, quick, nprng)
     seed_classes(chk, ps, quick)
     call_histories(chk, ps, quick, nprng)
+    overlapping_construction(chk, ps, quick)
     entry_points(chk, ps, nprng)
     chk.notes.append("round-5 sections: worst observed value as a fraction of its tolerance: %s"
                      % {k: float("%.2e" % v) for k, v in sorted(WORST.items())})
